@@ -396,7 +396,14 @@ pub fn run_prop<P: Prop>(p: &P, args: &RunArgs) -> i32 {
                             return Ok(());
                         }
                         CASE_STARTS[w % MAX_WORKERS].store(crate::sim::clock::real_ms(), Ordering::SeqCst);
-                        let r = p.run_case(&sc);
+                        let r = match std::panic::catch_unwind(std::panic::AssertUnwindSafe(|| p.run_case(&sc))) {
+                            Ok(r) => r,
+                            Err(_) => {
+                                let m = crate::sim::exec::take_last_panic().unwrap_or_default();
+                                println!("INCONCLUSIVE: the harness itself panicked outside the code under test ({m}); scenario: {}", serde_json::to_string(&sc).unwrap_or_default());
+                                std::process::exit(2);
+                            }
+                        };
                         CASE_STARTS[w % MAX_WORKERS].store(0, Ordering::SeqCst);
                         match r {
                             Ok(ok) => {
